@@ -42,7 +42,7 @@ def body_st():
     return st.one_of(
         st.none(),
         st.tuples(st.just(False), st.text(max_size=60)),
-        st.tuples(st.just(False), st.sampled_from(["# hi\n", "40 fake\r\n", "x" * 3000])),
+        st.tuples(st.just(False), st.sampled_from(["# hi\n", "40 fake\r\n", "x" * 3000, "y" * 16385, "é" * 20000, "z" * 70000])),
         st.tuples(st.just(True), st.binary(max_size=60).map(b2s)),
     )
 
@@ -533,6 +533,13 @@ def run_tls(case: dict):
 @st.composite
 def tls_case_st(draw):
     c = draw(case_st())
+    if draw(st.integers(0, 5)) == 0:
+        # a plain success with a body larger than one TLS record / than the socket buffer
+        n = draw(st.sampled_from([16383, 16384, 16385, 32769, 70000, 300000]))
+        c.update({"handler": {"kind": draw(st.sampled_from(["value", "async-value"])), "status": 20, "meta": "text/gemini",
+                              "body": ("é" if n % 2 else "x") * n, "body_bytes": False, "gate": False},
+                  "middleware": None, "routing": "direct", "data": "gemini://example.org/app/big\r\n", "cuts": [],
+                  "disconnect": False, "labels": ["req:gemini-simple", "big-body"]})
     c["backend"] = draw(st.sampled_from(["stdlib", "pyopenssl"]))
     c["tls_mode"] = draw(st.sampled_from(["separate", "coalesce"]))
     c["tls"] = draw(st.sampled_from(["1.3", "1.3", "1.2"]))
